@@ -18,7 +18,9 @@ build_libs() {
   fi
 }
 build_plain() { cp /repo/go.sum go.sum 2>/dev/null; go build -tags verif -o build/bin/vcheck ./h/cmd/vcheck; }
-build_race()  { go build -race -tags verif -o build/bin/vcheck.race ./h/cmd/vcheck; }
+# race builds add the tag "appengine": golang.org/x/crypto@2019 sha3 then uses its generic xor instead of an
+# unsafe unaligned cast that trips checkptr (which -race switches on) in third-party code.
+build_race()  { go build -race -tags "verif appengine" -o build/bin/vcheck.race ./h/cmd/vcheck; }
 build_asan()  { go build -asan -tags verif -o build/bin/vcheck.asan ./h/cmd/vcheck; }
 
 if [ "${1:-}" = "--setup" ]; then
